@@ -3,7 +3,7 @@ CONSTANTS
   Kinds = {"W", "F"}
   Lose = {FALSE}
   MaxSrc = 4
-  MaxCopies = 2
+  MaxCopies = 1
   MaxSends = 2
   MaxTgtW = 1
 VIEW View
